@@ -44,11 +44,14 @@ class Editor:
         texts = dict[str, str]()
         files = dict[str, models.File]()
         queue = collections.deque([os.path.normpath(path)])
+        visited = set[str]()
 
         while queue:
             current_path = queue.popleft()
-            if current_path in texts:
+            real_path = os.path.realpath(current_path)
+            if real_path in visited:
                 continue
+            visited.add(real_path)
             with open(current_path, newline='') as f:
                 texts[current_path] = f.read()
             files[current_path] = self._parser.parse(texts[current_path], models.File)
